@@ -1,9 +1,8 @@
 (* Statements about the ECP part of the CFOUR / GENBAS writer / reader pair and about the whole file (electron blocks + ECP
    blocks): what write_cfour prints, read_genbas reads back.  Definitions only; the proofs are in Proofs/GenbasEcpSpec.v.
    The electron blocks alone are Proofs/GenbasDefs.v / GenbasSpec.v.
-   STATUS: c4ecp_roundtrip_stmt (the general round trip WITH ECPs) is stated here but proved only on instances
-   (c4ecp_example_stmt, c4ecp_range_stmt, ...); the general theorems proved are the ones without ECPs (c4ecp_no_ecp_stmt,
-   c4ecp_roundtrip_no_ecp_stmt). *)
+   STATUS: everything stated here is proved in Proofs/GenbasEcpSpec.v, c4ecp_roundtrip_stmt (the general round trip WITH
+   ECPs) exactly as stated (lemma c4ecp_roundtrip_exact). *)
 From BSE Require Import Model.Val Model.Text Model.Basis Model.Manip Model.Matrix Model.Lut Model.Elements Model.Nwchem
                         Model.NwchemEcp Model.Turbomole Model.TurbomoleEcp Model.Genbas Model.GenbasEcp
                         Proofs.MatrixDefs Proofs.NwchemDefs Proofs.NwchemEcpDefs Proofs.TurbomoleDefs Proofs.TurbomoleEcpDefs
@@ -53,10 +52,30 @@ Definition c4ecp_no_ecp_stmt : Prop :=
 Definition c4ecp_roundtrip_no_ecp_stmt : Prop :=
   forall name desc els, c4_ok name desc els -> c4ecp_roundtrip name desc els [] = inr (c4ecp_expected els []).
 
-(* the general round trip with ECPs.  NOT PROVED in Proofs/GenbasEcpSpec.v (instances only). *)
+(* the general round trip with ECPs (Proofs/GenbasEcpSpec.v, c4ecp_roundtrip_exact) *)
 Definition c4ecp_roundtrip_stmt : Prop :=
   forall name desc els ecps, c4ecp_ok name desc els ecps ->
     c4ecp_roundtrip name desc els ecps = inr (c4ecp_expected els ecps).
+
+(* the writer does not fail on well-formed input *)
+Definition c4ecp_write_total_stmt : Prop :=
+  forall name desc els ecps, c4ecp_ok name desc els ecps -> exists t, c4ecp_write name desc els ecps = inr t.
+
+(* the round trip component by component: key order, electron part (c4_expected of Proofs/GenbasDefs.v), ECP part *)
+Definition c4ecp_roundtrip_parts_stmt : Prop :=
+  forall name desc els ecps t, c4ecp_ok name desc els ecps -> c4ecp_write name desc els ecps = inr t ->
+    c4ecp_read_parts (splitlines t) = inr (tmecp_all_order els ecps, c4_expected els, c4ecp_ecp_expected ecps).
+
+(* C04 direction for the whole file: NOTHING is left out.
+   - every exponent and coefficient of the electron shells (tm_number_of, Proofs/TurbomoleDefs.v) is a white-space delimited
+     token of some line, with the marker as _cfour_exp / _cfour_coef print it (c4_dconv: E -> D, nothing else);
+   - every gaussian exponent, coefficient, r exponent (in decimal) and electron count (in decimal) of the ECPs
+     (nw_ecp_number_of, Proofs/NwchemEcpDefs.v) is a token of some line LITERALLY (write_matrix without convert_exp). *)
+Definition c4ecp_no_number_lost_stmt : Prop :=
+  forall name desc els ecps t, c4ecp_ok name desc els ecps -> c4ecp_write name desc els ecps = inr t ->
+    forall x,
+      (tm_number_of els x -> exists line, In line (splitlines t) /\ In (c4_dconv x) (tokens_acc line "")) /\
+      (nw_ecp_number_of ecps x -> exists line, In line (splitlines t) /\ In x (tokens_acc line "")).
 
 (* ---------- instances ---------- *)
 Definition c4ecp_els0 : list (Z * list sshell) := [(1%Z, [c4_h])].
